@@ -92,6 +92,10 @@ def int_type(s):
     return None
 
 
+def is_float(s):
+    return strip_quals(s) in ("double", "float", "long double")
+
+
 def is_pointer(s):
     return strip_quals(s).endswith("*") or strip_quals(s).endswith("]")
 
@@ -175,6 +179,7 @@ class Translator:
         self.fname = ""
         self.free_as_params = False           # slices: unknown variables become parameters
         self.call_hooks = {}                  # callee name -> function(translator, node, env) -> E
+        self.const_index_locations = False    # p[3] with literal index is a scalar location "p_3"
 
     # -- variable naming ---------------------------------------------------
     def fresh(self, base):
@@ -201,6 +206,15 @@ class Translator:
                 base = skip_parens(base["inner"][0])
             if base.get("kind") == "DeclRefExpr":
                 return base["referencedDecl"]["name"] + "_deref"
+        if k == "ArraySubscriptExpr":
+            base = skip_parens(n["inner"][0])
+            while base.get("kind") == "ImplicitCastExpr":
+                base = skip_parens(base["inner"][0])
+            idx = skip_parens(n["inner"][1])
+            while idx.get("kind") == "ImplicitCastExpr":
+                idx = skip_parens(idx["inner"][0])
+            if base.get("kind") == "DeclRefExpr" and idx.get("kind") == "IntegerLiteral":
+                return "%s_%s" % (base["referencedDecl"]["name"], idx["value"])
         raise Unsupported("lvalue %s in %s" % (k, self.fname))
 
     def lookup(self, env, key):
@@ -257,7 +271,10 @@ class Translator:
                     if lo <= v <= hi:
                         return lit(v)
                 return E("%s %s" % (wrapname(dst), e.z()))
-            if ck == "IntegralToBoolean" or ck == "PointerToBoolean":
+            if ck in ("IntegralToFloating", "FloatingCast"):
+                # floating-point values are modelled as exact numbers (see the header of the generated file)
+                return self.expr(inner, env)
+            if ck == "IntegralToBoolean" or ck == "PointerToBoolean" or ck == "FloatingToBoolean":
                 e = self.expr(inner, env)
                 return E(e.b(), "bool", True)
             if ck == "NullToPointer":
@@ -308,6 +325,8 @@ class Translator:
             if op == "||":
                 return E("%s || %s" % (a.b(), b.b()), "bool")
             t = int_type(tystr(n))
+            if t is None and is_float(tystr(n)) and op in ("+", "-", "*"):
+                return E("%s %s %s" % (a.z(), op, b.z()))
             if t is None:
                 raise Unsupported("binary %s at type %s in %s" % (op, tystr(n), self.fname))
             return self.arith(op, a, b, t)
@@ -319,6 +338,12 @@ class Translator:
                 return E("if %s then %s else %s" % (c.b(), a.b(), b.b()), "bool")
             return E("if %s then %s else %s" % (c.b(), a.z(), b.z()))
         if k == "ArraySubscriptExpr":
+            try:
+                key = self.lvalue_key(n)
+                if key in env or (self.free_as_params and self.const_index_locations):
+                    return E(self.lookup(env, key), "Z", True)
+            except Unsupported:
+                pass
             base = self.expr(n["inner"][0], env)
             idx = self.expr(n["inner"][1], env)
             if base.kind != "arr":
@@ -488,6 +513,9 @@ class Translator:
             ct = int_type(s.get("computeResultType", {}).get("desugaredQualType") or s.get("computeResultType", {}).get("qualType") or tystr(s))
             clt = int_type(s.get("computeLHSType", {}).get("desugaredQualType") or s.get("computeLHSType", {}).get("qualType") or tystr(s))
             a = self.expr(s["inner"][0], env)
+            if lt is None and is_float(tystr(s["inner"][0])) and op in ("+", "-", "*"):
+                b = self.expr(s["inner"][1], env)
+                return self.assign(key, E("%s %s %s" % (a.z(), op, b.z())), env, rest, K)
             if clt and lt and not subrange(lt, clt):
                 a = E("%s %s" % (wrapname(clt), a.z()))
             b = self.expr(s["inner"][1], env)
@@ -874,6 +902,24 @@ def translate_slice(fn, var, gname, occurrence=0, structs=None, known_funcs=None
     return out, info
 
 
+def translate_block(stmts, gname, params, outputs, fname="block", structs=None, known_funcs=None, tables=None):
+    """Translate a statement list as a function of the given locations (params: list of location keys,
+    all of type Z) returning the tuple of the final values of `outputs`."""
+    T = Translator(structs, known_funcs, tables)
+    T.fname = fname
+    T.gname = gname
+    T.const_index_locations = True
+    env = dict((p, p) for p in params)
+    T.params = list(params)
+    K = dict(fin=lambda e2: T.tuple_of([e2[o] for o in outputs]),
+             ret=lambda e, e2: (_ for _ in ()).throw(Unsupported("return inside block")), brk=None, cont=None)
+    text = T.stmts(list(stmts), env, K)
+    plist = " ".join("(%s : Z)" % n for n in params)
+    out = "".join(a for _, a in T.aux)
+    out += "Definition %s %s :=\n%s.\n" % (gname, plist, text)
+    return out, dict(name=gname, params=list(params), outputs=list(outputs), fuel=False)
+
+
 def translate_table(var, gname):
     """global constant integer array -> Gallina list + lookup function"""
     init = [c for c in var.get("inner", []) if isinstance(c, dict) and c.get("kind") != "FullComment"][-1]
@@ -907,7 +953,8 @@ def translate_table(var, gname):
 HEADER = """(* GENERATED by tools/c2g from %s -- do not edit; regenerated on every run.
    Assumptions of the translation: distinct pointer parameters do not alias, signed overflow
    wraps (two's complement), shift counts are taken as written, every parameter is in the range
-   of its C type. *)
+   of its C type; floating-point values, where they occur, are modelled as exact numbers
+   (no rounding, no NaN, no signed zero). *)
 From Coq Require Import ZArith List Bool.
 From ScV Require Import Base.CInt.
 Import ListNotations.
